@@ -248,16 +248,16 @@ func makeVisitor(rt *rapid.T, c *casePlan, p *connPlan) {
 	if p.Target != tkOKIP && p.Target != tkOKDomain && rapid.IntRange(0, 3).Draw(rt, "visitor-target-ok") != 0 {
 		p.Target = tkOKIP
 	}
-	if c.AllowSegmented && p.upTotal() < int64(h) {
+	if c.AllowSegmented {
 		// With allowSegmentedFixedLengthHeader the server keeps reading until it has a whole header
 		// (or EOF): a visitor that sends less than that and then waits for an answer is, as
 		// documented, not connected anywhere. Such a visitor is not generated: it either sends at
 		// least a header's worth in the course of its upload (the header is then assembled from
 		// several segments), or it ends its upload first (EOF ends the collecting).
-		switch {
-		case p.Target != tkOKIP && p.Target != tkOKDomain:
+		switch ok := p.Target == tkOKIP || p.Target == tkOKDomain; {
+		case !ok && p.FirstLen < h:
 			p.FirstLen = h // (on the failure paths the harness client only sends its first segment)
-		case p.Mode == cmTargetFirst || p.Mode == cmAbort:
+		case ok && p.upTotal() < int64(h) && (p.Mode == cmTargetFirst || p.Mode == cmAbort):
 			p.UpRest = append(p.UpRest, h)
 		}
 	}
